@@ -36,6 +36,10 @@ def check(run):
     if vlib.parse_violation(out) != 'NV_NoOverlap':
         raise vlib.Infra('vacuous: no overlapping analyses observed with runFanInitializationInParallel=true')
     run.validate('Monitor_Daemon', dmnfam.monitor_cfg(['C15_AtMostOnce'], []), par, 'monpar')
+    # process level: the real daemon reads the option from a configuration file (loader, start-up code, controllers)
+    ptr = run.drive('TestDriveC16Proc', 2, lambda i: dict(VERIF_SEED=run.seed * 2 + i, VERIF_N=run.pick(1, 4)), 'c16proc', timeout=3000)
+    run.validate('Monitor_Daemon', dmnfam.monitor_cfg(INV, []), ptr, 'monproc')
+    run.cov['process_level_starts'] = dmnfam.count(ptr, lambda ln: '"ev":"Begin"' in ln)
     sched = dmnfam.count(serial, lambda ln: '"ev":"Begin"' in ln)
     ana = dmnfam.count(serial, lambda ln: '"ev":"AnalysisStart"' in ln or '"ev":"SweepBegin"' in ln)
     return run.finish('model_checking',
@@ -43,7 +47,8 @@ def check(run):
                       '(thorough) fans that need analysis (overlap reachable with the option true); real controllers of 2..4 fans '
                       '(hwmon: sweep + RPM curve measurement, file: sweep) started with random relative delays behind plants of '
                       'differing settle times, in REAL time with the option false, in a bubble with the option true (overlap '
-                      'observed); analysis intervals from hook events in linearization order, checked by TLC; '
+                      'observed), and the real daemon process on a configuration file (two hwmon fans / a hwmon and a command fan, nothing stored); '
+                      'analysis intervals from hook events in linearization order, checked by TLC; '
                       'non-trivial = analysis phases (sweeps / sequences) observed with the option false',
                       dict(evaluations=sched, distinct_nontrivial=ana, schedules_serial=sched, analysis_phases=ana,
                            schedules_parallel=dmnfam.count(par, lambda ln: '"ev":"Begin"' in ln)),
